@@ -283,8 +283,10 @@ def _file_may_match(
                     return False
 
             elif expr.op == FilterOp.NE:
-                # For inequality: can only prune if entire file has same value
-                if file_min == file_max == expr.value:
+                # For inequality: can only prune if entire file has same value.
+                # Float bounds skip NaN rows, and NaN != value is TRUE, so float
+                # bounds can never prove that no row satisfies the inequality.
+                if not isinstance(file_min, float) and file_min == file_max == expr.value:
                     return False
 
             elif expr.op == FilterOp.GT:
@@ -314,8 +316,18 @@ def _file_may_match(
             elif expr.op == FilterOp.IN:
                 # For IN: at least one value in the list must be in [file_min, file_max]
                 if expr.value:
+                    # pyarrow casts the IN value set to the column type before
+                    # matching (0.1 -> float32(0.1), 5.5 -> True) and matches NaN
+                    # against NaN rows, which the bounds skip. The range test on
+                    # the uncast values is only valid where that cast is exact:
+                    # never prune on float values / float bounds, nor when exactly
+                    # one side is a bool.
                     has_possible_match = any(
-                        file_min <= v <= file_max for v in expr.value
+                        isinstance(v, float)
+                        or isinstance(file_min, float)
+                        or isinstance(v, bool) != isinstance(file_min, bool)
+                        or file_min <= v <= file_max
+                        for v in expr.value
                     )
                     if not has_possible_match:
                         return False
